@@ -14,6 +14,7 @@ DECIDING = ["id:" + g for g in GROUPS]
 RULE = ("every constructor in toqito.states / toqito.matrices on dimensions 2..5 (primes 2,3,5,7 for the unbiased bases), 1..5 qubits, parameter grids including interval "
         "end points and values just outside (+-1e-6, +-0.05), all index pairs, 30 (quick: 6) Haar unitaries per invariance statement; marginals / partial transposes / "
         "subsystem permutations are computed by the reference models, never by the library; signature (group, dimension or qubits, parameter class)")
+THOROUGH_REPEAT = 20  # the thorough tier runs its randomised case kinds this many times (new inputs each time)
 ASSUMPTIONS = [
     "w_state rounds amplitudes to 4 decimals: normalisation tolerance 1e-3 for that constructor; everything else 1e-9",
     "PPT thresholds decided away from the threshold: alpha <= threshold - 0.02 => lambda_min(PT) >= -1e-12, alpha >= threshold + 0.02 => lambda_min(PT) <= -1e-4",
